@@ -26,10 +26,13 @@ pub(crate) fn update_backtracks<A>(dfa: &mut DFA<StateIdx, A>) {
         // Did we visit the state, with the right backtrack state?
         match visited.entry(state) {
             Entry::Occupied(mut entry) => {
-                if *entry.get() == backtrack {
+                // The flag only ever goes from `false` to `true`: a state that was reached after
+                // an accepting state on some path must keep backtracking even if it is reached
+                // again on a path without one. Revisit only when upgrading.
+                if *entry.get() || !backtrack {
                     continue;
                 }
-                entry.insert(backtrack);
+                entry.insert(true);
             }
             Entry::Vacant(entry) => {
                 entry.insert(backtrack);
